@@ -82,7 +82,12 @@ def finish(prop, tier, seed, results, reg, table, wall, timeout_ms):
         path = os.path.join(rdir, slug(o["unit"] + "__" + o["name"]) + ".json")
         with open(path, "w") as fh:
             json.dump(rec, fh, indent=1, default=str)
-        native = replay_mod.try_native(path)
+        if o["kind"] == "ground":
+            # a ground obligation is decided by evaluating the real module's data / source: the
+            # evaluation *is* the native reproduction
+            native = {"reproduced": True, "input": o["name"], "observed": (o.get("model") or {}).get("detail")}
+        else:
+            native = replay_mod.try_native(path)
         rec["native_replay"] = native
         with open(path, "w") as fh:
             json.dump(rec, fh, indent=1, default=str)
